@@ -128,7 +128,8 @@ Valid(cls, o) ==
   /\ (cls \in {"ternary", "stochastic_ternary"} /\ IsAuto(o)) => o.threshold = "None"
   /\ (cls = "stochastic_ternary") => IsAuto(o)              \* training branch asserts a string alpha
   /\ (cls = "ternary" /\ ~IsAuto(o)) => o.use_stochastic_rounding = "b:0"
-  /\ (cls = "quantized_relu" /\ o.relu_upper_bound # "None") => o.is_quantized_clip = "b:0"   \* the bound is ignored otherwise
+  \* (quantized_relu: relu_upper_bound together with is_quantized_clip = True is a legal configuration - the documented
+  \*  precedence lets the quantized clip win; it has to survive the round trips like any other)
 Distinct(S) == \A a, b \in S : a # b => a[1] # b[1]
 Cfgs(cls, k) == {[cls |-> cls, opts |-> o] :
                    o \in {x \in {ApplySet(ApplySeq(Defaults(cls), b), S) : b \in Bases(cls),
